@@ -20,9 +20,15 @@ open C01
 
 def str (s : String) : Bytes := s.toUTF8.toList
 
+/-- `w` decimal digits of `n`, most significant first (`%0wd` for `n < 10^w`). -/
+def fixedDec : Nat → Nat → Bytes
+  | 0, _ => []
+  | w + 1, n => fixedDec w (n / 10) ++ [UInt8.ofNat (48 + n % 10)]
+
+/-- `fmt.Sprintf("%0wd", n)` for non-negative `n`: zero padded to width `w`, longer when `n ≥ 10^w`. -/
 def digitsN (w n : Nat) : Bytes :=
-  let ds := (Nat.toDigits 10 n).map (fun c => UInt8.ofNat c.toNat)
-  List.replicate (w - ds.length) 48 ++ ds
+  if n < 10 ^ w then fixedDec w n
+  else (Nat.toDigits 10 n).map (fun c => UInt8.ofNat c.toNat)
 
 def leafCountPrefix : Bytes := str "..mk.."
 def oldLeafCountPrefix : Bytes := str "..mok.."
@@ -188,6 +194,13 @@ def delLeafCountKV (db : NodeDB) (height : Nat) : Res NodeDB :=
 structure HashData where
   height : Nat
   hash : Bytes
+  deriving DecidableEq, Repr
+
+/-- the deletion rule of `deleteNode` / `deleteOldNode` on one key's versions in scan order (newest first): keep the
+newest, delete the rest — unless the two newest share a height. -/
+def delRule : List HashData → List HashData
+  | v0 :: v1 :: rest => if v1.height != v0.height then v1 :: rest else []
+  | _ => []
 
 /-- group (in scan order) by parsed key, keeping first-seen order of the keys. -/
 def addToGroup (mp : List (Bytes × List HashData)) (key : Bytes) (d : HashData) : List (Bytes × List HashData) :=
@@ -198,19 +211,16 @@ def addToGroup (mp : List (Bytes × List HashData)) (key : Bytes) (d : HashData)
 recorded for them — unless the two newest share a height. -/
 def deleteVersions (pfx : Bytes) (db : NodeDB) (mp : List (Bytes × List HashData)) (cur ph : Nat) : NodeDB :=
   mp.foldl (fun d (p : Bytes × List HashData) =>
-    match p.2 with
-    | v0 :: v1 :: rest =>
-      if v1.height != v0.height then
-        (v1 :: rest).foldl (fun d (val : HashData) =>
-          if cur ≥ val.height + ph then
-            let lck := leafCountKey pfx p.1 val.hash val.height
-            let parents := match db[lck]? with
-              | none => []
-              | some v => (decPruneData v).getD []
-            ((parents.foldl (fun d h => d.erase h) d).erase lck).erase val.hash
-          else d) d
-      else d
-    | _ => d) db
+    (delRule p.2).foldl (fun d (val : HashData) =>
+      if cur ≥ val.height + ph then
+        let lck := leafCountKey pfx p.1 val.hash val.height
+        let parents := match db[lck]? with
+          | none => []
+          | some v => match decPruneData v with
+            | some hs => hs
+            | none => []
+        ((parents.foldl (fun d h => d.erase h) d).erase lck).erase val.hash
+      else d) d) db
 
 /-- third-level branch of `deleteOldNode`: only index entries older than 1 500 000 heights are dropped. -/
 def deleteOld (db : NodeDB) (mp : List (Bytes × List HashData)) (cur ph : Nat) : NodeDB :=
